@@ -3,12 +3,14 @@ Attached to a real driver by `attach(conn, t)`.  Every call is appended to `trac
 
 read() on an empty buffer:  on_empty="stall" raises SimStall (a BaseException: the operation would
 block forever; logic runs), "empty" returns b"", "block" sleeps (timing runs; woken by close()).
-Faults: FaultPlan(at_read=k | at_write=k | after_bytes=n, action=exception instance | "eof" | "silent")."""
+Faults: FaultPlan(at_read=k | at_write=k | after_bytes=n, action=exception instance | "eof" | "silent").
+Pauses: `t.pauses = {offsets}`: when exactly that many bytes of the session have been read, the read ends there and the NEXT read raises
+ScrapliTimeout once (the line was quiet for a whole transport timeout); the session goes on afterwards."""
 import asyncio, threading, time
 from typing import List, Optional
 
 from scrapli.decorators import timeout_wrapper
-from scrapli.exceptions import ScrapliConnectionError, ScrapliConnectionNotOpened
+from scrapli.exceptions import ScrapliConnectionError, ScrapliConnectionNotOpened, ScrapliTimeout
 from scrapli.transport.base import AsyncTransport, Transport
 
 
@@ -79,6 +81,7 @@ class _SimCore:
         self.dead = False         # session dropped by a fault
         self.silent = False
         self.nreads = self.nwrites = self.nbytes = 0
+        self.pauses = set()
         self._wake = threading.Event()
 
     # --- helpers
@@ -100,6 +103,10 @@ class _SimCore:
             raise ScrapliConnectionNotOpened
         if self.dead:
             raise ScrapliConnectionError("encountered EOF reading from transport; typically means the device closed the connection")
+        if self.nbytes in self.pauses:
+            self.pauses.discard(self.nbytes)
+            self.trace.append(("pause", self.nbytes))
+            raise ScrapliTimeout("sim: nothing arrived for a whole transport timeout")
         self.nreads += 1
         for f in self.faults:
             if not f.fired and (f.at_read == self.nreads or (f.after_bytes is not None and self.nbytes >= f.after_bytes)):
@@ -111,6 +118,9 @@ class _SimCore:
             if not f.fired and f.after_bytes is not None and self.nbytes + avail > f.after_bytes:
                 avail = max(f.after_bytes - self.nbytes, 0)
         n = max(1, min(avail, self.cuts.take(avail))) if avail else 0
+        nxt = min((p for p in self.pauses if p > self.nbytes), default=None)
+        if nxt is not None and self.nbytes + n > nxt:
+            n = nxt - self.nbytes      # a read ends where the line goes quiet
         chunk = bytes(self.buf[:n])
         del self.buf[:n]
         self.nbytes += n
